@@ -29,11 +29,11 @@ BUDGET = {
 }
 
 PROFILES = {
-    'C01': gen.profile(p_share_lazy=0.35, p_generic=0.08),
+    'C01': gen.profile(p_share_lazy=0.35, p_generic=0.08, p_lazy_fail_shape=0.08, p_fatal=0.04),
     'C02': gen.profile(p_fail=0.0, p_retry=0.25, p_rec_nested=0.4, p_rec=0.2, p_share_lazy=0.4, p_sw=0.3),
     'C03': gen.profile(p_rec=0.3, p_share=0.5, p_rec_nested=0.4, p_generic=0.08),
     'C04': gen.profile(p_share=0.75, n_max=11, p_sw=0.22, p_oneof=0.2, p_rec=0.1),
-    'C05': gen.profile(p_fail=0.35, p_retry=0.3, p_lazy_fail_shape=0.12),
+    'C05': gen.profile(p_fail=0.35, p_retry=0.3, p_lazy_fail_shape=0.12, p_fatal=0.08),
     'C07': gen.profile(p_fail=0.2),
     'C08': gen.profile(p_fail=0.15, p_rec=0.25),
     'C09': gen.profile(p_sw=0.45, p_oneof=0.1, p_rec=0.12, p_share_decider=0.5, p_unnamed_switch=0.4, p_share_lazy=0.4, p_lazy_fail_shape=0.12),
